@@ -55,6 +55,9 @@ pub struct Loader {
     rules: HashMap<String, SmallMap<String, eval::EvalString<String>>>,
     pools: SmallMap<String, usize>,
     builddir: Option<String>,
+    /// Files currently being parsed (the chain of include/subninja
+    /// statements), to detect a file that includes itself.
+    parsing: Vec<FileId>,
 }
 
 impl Loader {
@@ -173,6 +176,19 @@ impl Loader {
         self.graph.add_build(build)
     }
 
+    /// Note that `id` is about to be parsed; fails if it already is being
+    /// parsed, i.e. a file (indirectly) includes itself.
+    fn enter_file(&mut self, id: FileId) -> anyhow::Result<()> {
+        if self.parsing.contains(&id) {
+            bail!(
+                "{} includes itself (via include/subninja)",
+                self.graph.file(id).name
+            );
+        }
+        self.parsing.push(id);
+        Ok(())
+    }
+
     pub fn read_file_by_id(&self, id: FileId) -> anyhow::Result<(PathBuf, Vec<u8>)> {
         let path = self.graph.file(id).path().to_path_buf();
 
@@ -202,6 +218,7 @@ impl Loader {
             match stmt {
                 Statement::Include(in_path) => {
                     let id = self.evaluate_path(in_path, &[&parser.vars]);
+                    self.enter_file(id)?;
                     let (path, bytes) = self.read_file_by_id(id)?;
                     // `include` shares the scope of the including file: bindings
                     // made in the included file remain visible afterwards.
@@ -212,6 +229,7 @@ impl Loader {
 
                     sub_parser.inherit(&parser);
                     self.parse_with_parser(&mut sub_parser, path, envs)?;
+                    self.parsing.pop();
                     for (k, v) in sub_parser.vars.get_all() {
                         parser.vars.insert(k, v.clone());
                     }
@@ -219,12 +237,14 @@ impl Loader {
 
                 Statement::Subninja(in_path) => {
                     let id = self.evaluate_path(in_path, &[&parser.vars]);
+                    self.enter_file(id)?;
                     let (path, bytes) = self.read_file_by_id(id)?;
                     let bytes = std::rc::Rc::new(bytes);
                     let mut sub_parser = parse::Parser::new(&bytes);
 
                     sub_parser.inherit(&parser);
                     self.parse_with_parser(&mut sub_parser, path, envs)?;
+                    self.parsing.pop();
                 }
 
                 Statement::Default(defaults) => {
@@ -273,6 +293,7 @@ pub fn read(build_filename: &str) -> anyhow::Result<State> {
             .graph
             .files
             .id_from_canonical(to_owned_canon_path(build_filename));
+        loader.enter_file(id)?;
         let (path, bytes) = loader.read_file_by_id(id)?;
         let mut parser = parse::Parser::new(&bytes);
 
